@@ -423,8 +423,60 @@ def rule_pa1(ctx):
                 and dotted(n.value.func) == "permute_along_axis":
             calls[dotted(n.targets[0])] = n.value
     if set(calls) != {"W", "Winv"}:
-        r.note("PA1", loc(f, f.node), "diagonalize_form",
-               "permutation idiom not recognised")
+        # gather form: np.take_along_axis(M, <index built from order>, axis)
+        takes = {}
+        for n in ast.walk(f.node):
+            if isinstance(n, ast.Assign) and isinstance(n.value, ast.Call) \
+                    and dotted(n.value.func) == "np.take_along_axis" \
+                    and dotted(n.targets[0]) in ("W", "Winv") \
+                    and len(n.value.args) >= 2:
+                takes[dotted(n.targets[0])] = n.value
+        if set(takes) != {"W", "Winv"}:
+            r.note("PA1", loc(f, f.node), "diagonalize_form",
+                   "permutation idiom not recognised")
+            return
+        defs_f = single_defs(f.node)
+
+        def index_source(e, depth=0):
+            """name of the index array the gather uses, after peeling
+            expand_dims / newaxis and single-assignment locals"""
+            while True:
+                if isinstance(e, ast.Call) and dotted(e.func) in (
+                        "np.expand_dims",) and e.args:
+                    e = e.args[0]
+                    continue
+                if isinstance(e, ast.Subscript):
+                    e = e.value
+                    continue
+                break
+            return e
+        srcs = {}
+        for k, c in takes.items():
+            e = index_source(c.args[1])
+            chain = [dotted(e)]
+            seen = 0
+            while isinstance(e, ast.Name) and e.id in defs_f and seen < 4:
+                e = index_source(defs_f[e.id])
+                chain.append(dotted(e))
+                seen += 1
+            srcs[k] = chain
+        same = srcs["W"][0] == srcs["Winv"][0]
+        reinverted = any("argsort" in x for x in srcs["Winv"]
+                         if x not in srcs["W"])
+        if same and not reinverted:
+            r.ok("PA1", "diagonalize_form", loc(f, takes["Winv"]), "",
+                 f"both gathers use `{srcs['W'][0]}`")
+        else:
+            r.violation(
+                "PA1", f"{f.fq}|permutation", loc(f, takes["Winv"]),
+                dotted(takes["Winv"])[:140],
+                f"the columns of W are gathered with `{srcs['W'][0]}` but "
+                f"the rows of Winv with `{srcs['Winv'][0]}` "
+                f"({' <- '.join(srcs['Winv'])}): row i of the permuted "
+                "inverse must be row order[i] of the inverse, i.e. the SAME "
+                "index array; with the inverse permutation Winv is the "
+                "inverse of W only when the reordering is an involution",
+                instance="diagonalize_form")
         return
 
     def info(c):
@@ -1199,3 +1251,204 @@ def rule_pm1(ctx, rels, scope=None):
                         "the first unselected one receives another "
                         "entry's value", instance=inst)
     return n_s
+
+
+
+# ---------------------------------------------------------------------------
+def rule_acc1(ctx, rels):
+    r = ctx.r
+    r.rule("ACC1", "a per-edge accumulator is filled with "
+                   "`D.setdefault(k, []).append(x)` / defaultdict(list); "
+                   "`D.setdefault(k, [x])` as a bare statement keeps only "
+                   "the first x for each key (every later label of a "
+                   "parallel edge is dropped)")
+    n = 0
+    for rel in rels:
+        m = ctx.p.module_by_rel(rel)
+        for f in ctx.p.all_functions:
+            if f.module is not m:
+                continue
+            for st in ast.walk(f.node):
+                if not (isinstance(st, ast.Expr)
+                        and isinstance(st.value, ast.Call)
+                        and isinstance(st.value.func, ast.Attribute)
+                        and st.value.func.attr == "setdefault"
+                        and len(st.value.args) == 2):
+                    continue
+                d = st.value.args[1]
+                if not (isinstance(d, (ast.List, ast.Set)) and d.elts):
+                    continue
+                # inside a loop whose variable appears in the default?
+                loopvars = set()
+                for p in _ancestors(f, st):
+                    if isinstance(p, ast.For):
+                        loopvars |= {x.id for x in ast.walk(p.target)
+                                     if isinstance(x, ast.Name)}
+                used = {x.id for e in d.elts for x in ast.walk(e)
+                        if isinstance(x, ast.Name)}
+                if not (used & loopvars):
+                    continue
+                n += 1
+                r.analysed(f)
+                r.violation(
+                    "ACC1", f"{f.fq}|{norm_stmt(st)[:80]}", loc(f, st),
+                    norm_stmt(st)[:140],
+                    f"`{dotted(st.value)[:70]}` stores a one-element list "
+                    "the first time the key is seen and does nothing "
+                    "afterwards: with two labels on one (tail, head) pair "
+                    "the view built here lists one of them while the other "
+                    "views list both", instance=f"{f.qualname}:setdefault")
+    if n == 0:
+        r.ok("ACC1", "accumulators", ",".join(rels), "",
+             "no first-wins setdefault accumulator")
+
+
+def rule_flip1(ctx):
+    from ..paths import enumerate_paths
+    r = ctx.r
+    r.rule("FLIP1", "in Isometry._fixpoint_data the index array that orders "
+                    "the eigenvectors is reversed (np.flip along the last "
+                    "axis) on every path to the gather, whichever way it "
+                    "was computed: both orderings are ascending (argsort / "
+                    "lexsort), and the fixed points inside the closed ball "
+                    "(largest key) must come first")
+    f = ctx.p.get_function(HYP, "Isometry._fixpoint_data")
+    r.analysed(f)
+    flips = [st for st in ast.walk(f.node) if isinstance(st, ast.stmt)
+             and not isinstance(st, (ast.If, ast.For, ast.While, ast.Try,
+                                     ast.With, ast.FunctionDef))
+             and any(isinstance(c, ast.Call) and dotted(c.func) == "np.flip"
+                     for c in ast.walk(st))]
+    gathers = [st for st in ast.walk(f.node) if isinstance(st, ast.stmt)
+               and not isinstance(st, (ast.If, ast.For, ast.While, ast.Try,
+                                       ast.With, ast.FunctionDef))
+               and any(isinstance(c, ast.Call)
+                       and dotted(c.func) == "np.take_along_axis"
+                       for c in ast.walk(st))]
+    if not flips or not gathers:
+        r.note("FLIP1", loc(f, f.node), "_fixpoint_data",
+               "sort / flip / gather idiom not recognised (not judged)")
+        return
+    flag = f.params[1] if len(f.params) > 1 else "sort_eigvals"
+    bad = None
+    npaths = 0
+    for val in (True, False):
+        for p in enumerate_paths(f.node, stable=(flag,),
+                                 markers=flips + gathers,
+                                 flags={flag: val}):
+            ev = p.events
+            gi = [i for i, e in enumerate(ev)
+                  if any(e is g for g in gathers)]
+            if not gi:
+                continue
+            npaths += 1
+            if not any(any(e is fl for fl in flips) for e in ev[:gi[0] + 1]):
+                bad = (val, ev[gi[0]])
+    if bad is None:
+        r.ok("FLIP1", "_fixpoint_data", loc(f, flips[0]),
+             norm_stmt(flips[0])[:100],
+             f"{npaths} path(s) to the gather, all reversed")
+    else:
+        val, g = bad
+        r.violation(
+            "FLIP1", f"{f.fq}|unflipped:{flag}={val}", loc(f, g),
+            norm_stmt(g)[:140],
+            f"with {flag}={val} the ordering reaches the gather without "
+            "being reversed: eigenvectors outside the light cone (key 0) "
+            "come first, so fixed_point / fixed_point_pair report points "
+            "outside the closed ball", instance="_fixpoint_data")
+
+
+# ---------------------------------------------------------------------------
+CONJ_CALLS = {"np.conj", "np.conjugate"}
+CONJ_METHODS = {"conj", "conjugate"}
+
+
+def _is_conj_of(e, name):
+    """e is conj(<expr built on name>)"""
+    if isinstance(e, ast.Call):
+        if dotted(e.func) in CONJ_CALLS and e.args and any(
+                isinstance(x, ast.Name) and x.id == name
+                for x in ast.walk(e.args[0])):
+            return True
+        if isinstance(e.func, ast.Attribute) and e.func.attr in CONJ_METHODS \
+                and any(isinstance(x, ast.Name) and x.id == name
+                        for x in ast.walk(e.func.value)):
+            return True
+    return False
+
+
+def rule_svd1(ctx, min_sites=1):
+    r = ctx.r
+    r.rule("SVD1", "np.linalg.svd returns V^H: wherever rows of its third "
+                   "output are used as (null / singular) vectors they are "
+                   "conjugated first, so that complex matrices are handled "
+                   "(for real input the conjugate is the identity)")
+    sites = 0
+    for f in ctx.p.all_functions:
+        for st in ast.walk(f.node):
+            if not (isinstance(st, ast.Assign)
+                    and isinstance(st.value, ast.Call)
+                    and dotted(st.value.func) in ("np.linalg.svd",
+                                                  "numpy.linalg.svd",
+                                                  "linalg.svd")):
+                continue
+            kw = {k.arg: k.value for k in st.value.keywords}
+            cu = kw.get("compute_uv")
+            if isinstance(cu, ast.Constant) and cu.value is False:
+                continue
+            tgt = st.targets[0]
+            vh = None
+            if isinstance(tgt, ast.Tuple) and len(tgt.elts) == 3 \
+                    and isinstance(tgt.elts[2], ast.Name):
+                vh = tgt.elts[2].id
+            elif isinstance(tgt, ast.Name):
+                # res = svd(..); res[2] / res.Vh uses
+                vh = None
+            if vh is None or vh == "_":
+                continue
+            sites += 1
+            r.analysed(f)
+            # every read of vh must sit under a conjugation
+            parents = {}
+            for n in ast.walk(f.node):
+                for c in ast.iter_child_nodes(n):
+                    parents[c] = n
+            bad = None
+            nreads = 0
+            for n in ast.walk(f.node):
+                if not (isinstance(n, ast.Name) and n.id == vh
+                        and isinstance(n.ctx, ast.Load)):
+                    continue
+                nreads += 1
+                p = n
+                ok = False
+                while p in parents:
+                    p = parents[p]
+                    if _is_conj_of(p, vh):
+                        ok = True
+                        break
+                    if isinstance(p, ast.stmt):
+                        break
+                if not ok:
+                    bad = bad or n
+            if bad is not None:
+                stmt = bad
+                while not isinstance(stmt, ast.stmt):
+                    stmt = parents[stmt]
+                r.violation(
+                    "SVD1", f"{f.fq}|{vh}-unconjugated", loc(f, stmt),
+                    norm_stmt(stmt)[:140],
+                    f"`{vh}` is the V^H factor of np.linalg.svd and is read "
+                    "here without a conjugate: its rows are the conjugates "
+                    "of the right-singular vectors, so for a complex matrix "
+                    "A the 'kernel' vectors taken from it satisfy "
+                    "A @ conj(v) = 0, not A @ v = 0",
+                    instance=f"{f.qualname}:svd")
+            else:
+                r.ok("SVD1", f"{f.qualname}:svd", loc(f, st),
+                     norm_stmt(st)[:100],
+                     f"{nreads} read(s) of `{vh}`, all conjugated")
+    if sites < min_sites:
+        raise AnalysisError(f"SVD1: {sites} svd site(s) with a V^H output, "
+                            f"expected >= {min_sites}")
